@@ -80,6 +80,16 @@ class Instrument(ast.NodeTransformer):
                          [node.left, node.comparators[0], ast.Constant(isinstance(node.ops[0], ast.NotIn))], []), node)
         return node
 
+    def visit_Subscript(self, node):
+        self.generic_visit(node)
+        if isinstance(node.ctx, ast.Load) and isinstance(node.slice, ast.Slice):
+            sl = node.slice
+            none = ast.Constant(None)
+            return ast.copy_location(
+                ast.Call(ast.Name("__sx_getslice__", ast.Load()),
+                         [node.value, sl.lower or none, sl.upper or none, sl.step or none], []), node)
+        return node
+
     def visit_Dict(self, node):
         self.generic_visit(node)
         if self.dicts and self.func_depth > 0 and all(k is not None for k in node.keys):
